@@ -1156,6 +1156,136 @@ func parProp(c ParCase, r *pbt.R) error {
 	return nil
 }
 
+// ---------------------------------------------------------------------------
+// sub-check "typed": the same references on other element types
+
+// TypedCase: Args are slices of indices into the value table of element type ET; Fn picks identity, a constant or the
+// function that maps table[i] to table[i - i%2] (collapses neighbours in the table).
+type TypedCase struct {
+	ET   int     `json:"et"`
+	Fn   int     `json:"fn"`
+	Args [][]int `json:"args"`
+}
+
+type pairT struct {
+	A int
+	B string
+}
+
+var typedNames = []string{"int32", "uint8", "[2]int8", "struct{A int; B string}", "any", "uint64", "float32", "bool", "int64"}
+
+var (
+	// int32 is also rune: values that are not valid code points (negative, surrogates, above 0x10FFFF) and U+FFFD are elements like any other
+	tblInt32 = []int32{-1, 0, 65, 0xD800, 0xDFFF, 0xFFFD, 0x110000, -3, 7, math.MinInt32, math.MaxInt32, 0xFFFE}
+	tblUint8 = []uint8{0, 1, 127, 128, 255, 65, 200, 10}
+	tblArr   = [][2]int8{{0, 0}, {0, 1}, {1, 0}, {1, 1}, {-1, 0}, {0, -1}, {127, -128}, {-128, 127}}
+	tblPair  = []pairT{{0, ""}, {0, "a"}, {1, ""}, {1, "a"}, {-1, "A"}, {1, "A"}, {2, "ab"}, {2, "ba"}}
+	// dynamic types matter: 1, int64(1), "1" and 1.0 are four different values
+	tblAny    = []any{1, int64(1), "1", 1.0, nil, true, int8(1), [1]int{1}, struct{}{}, "", 0, false}
+	tblUint64 = []uint64{0, 1 << 63, math.MaxUint64, 1 << 32, 1 << 53, 1<<53 + 1, math.MaxUint64 - 1, 1}
+	tblF32    = []float32{0.1, math.Nextafter32(0.1, 1), 0, 1, math.Nextafter32(1, 2), -0.1, 16777216, 16777218}
+	tblBool   = []bool{false, true}
+	tblInt64  = []int64{0, 1 << 53, 1<<53 + 1, math.MinInt64, math.MaxInt64, -1, math.MaxInt64 - 1, 1 << 32}
+)
+
+func typedFns[T comparable](tbl []T) []keyFn[T] {
+	return []keyFn[T]{
+		{"identity", func(x T) T { return x }},
+		{"constant", func(T) T { return tbl[0] }},
+		{"table neighbour", func(x T) T {
+			for i, v := range tbl {
+				if v == x {
+					return tbl[i-i%2]
+				}
+			}
+			return x
+		}},
+	}
+}
+
+func runTyped[T comparable](c TypedCase, tbl []T, r *pbt.R) error {
+	fn := typedFns(tbl)[norm3(c.Fn)]
+	args := make([][]T, len(c.Args))
+	for i, a := range c.Args {
+		args[i] = make([]T, len(a))
+		for j, code := range a {
+			args[i][j] = tbl[((code%len(tbl))+len(tbl))%len(tbl)]
+		}
+	}
+	if len(args) == 0 {
+		return nil
+	}
+	if err := runSingle(args[0], fn, r); err != nil {
+		return fmt.Errorf("element type %s: %v", typedNames[c.ET], err)
+	}
+	if err := runTuple(args, fn, r); err != nil {
+		return fmt.Errorf("element type %s: %v", typedNames[c.ET], err)
+	}
+	if _, isAny := any(tbl).([]any); !isAny && len(args) >= 2 {
+		// Union of ([]T, T, []any{[]T...}): Unique of the flattening
+		var flat []T
+		nest := []any{}
+		for i, a := range args {
+			switch {
+			case i == 1 && len(a) > 0:
+				nest = append(nest, a[0], clone(a[1:]))
+				flat = append(flat, a...)
+			case i >= 2:
+				nest = append(nest, []any{clone(a)})
+				flat = append(flat, a...)
+			default:
+				nest = append(nest, clone(a))
+				flat = append(flat, a...)
+			}
+		}
+		got, err := gogu.Union[T](nest)
+		want := refUnique(flat)
+		if err != nil || !eq(got, want) {
+			return fmt.Errorf("element type %s: Union(%v) = %v, %v; want %v", typedNames[c.ET], nest, got, err, want)
+		}
+	}
+	return nil
+}
+
+func norm3(i int) int { return ((i % 3) + 3) % 3 }
+
+func typedProp(c TypedCase, r *pbt.R) error {
+	switch ((c.ET % len(typedNames)) + len(typedNames)) % len(typedNames) {
+	case 0:
+		return runTyped(c, tblInt32, r)
+	case 1:
+		return runTyped(c, tblUint8, r)
+	case 2:
+		return runTyped(c, tblArr, r)
+	case 3:
+		return runTyped(c, tblPair, r)
+	case 4:
+		return runTyped(c, tblAny, r)
+	case 5:
+		return runTyped(c, tblUint64, r)
+	case 6:
+		return runTyped(c, tblF32, r)
+	case 7:
+		return runTyped(c, tblBool, r)
+	default:
+		return runTyped(c, tblInt64, r)
+	}
+}
+
+func typedGen(s pbt.Src, thorough bool) TypedCase {
+	c := TypedCase{ET: s.Intn(len(typedNames)), Fn: s.Intn(3)}
+	alpha := pbt.Pick(s, 2, 4, 8, 12)
+	max := 10
+	if thorough {
+		max = 24
+	}
+	k := pbt.Pick(s, 1, 2, 2, 3, 4)
+	for i := 0; i < k; i++ {
+		c.Args = append(c.Args, pbt.Seq(s, 0, max, func(s pbt.Src) int { return s.Intn(alpha) }))
+	}
+	return c
+}
+
 func TestProp(t *testing.T) {
 	leaf := func(c int) Node { return Node{K: kLeaf, V: []int{c}} }
 	sl := func(c ...int) Node { return Node{K: kSlice, V: append([]int{}, c...)} }
@@ -1220,6 +1350,14 @@ func TestProp(t *testing.T) {
 				{Typ: typInt, Root: bad(2)},
 				{Typ: typInt, Root: bad(0)},
 			},
+		},
+		&pbt.Check[TypedCase]{
+			Name: "typed",
+			Rule: "the references of single and tuple (Unique, UniqueBy, Duplicate, DuplicateWithIndex, Intersection(By), Difference(By), Without) and Union of a ([]T, T, []T, []any{[]T}) nesting on other element types, values drawn from a table per type: " +
+				"int32 (= rune; negative values, surrogates, values above 0x10FFFF, U+FFFD, the extremes), uint8, [2]int8, struct{A int; B string} (values sharing one field), any (1, int64(1), \"1\", 1.0, nil, true, int8(1), [1]int{1}, struct{}{}: equal only with equal dynamic type), " +
+				"uint64 and int64 (values that collide after conversion to float64), float32 (neighbouring values), bool; key functions identity, constant, table neighbour. Random: 1..4 slices of up to 10 (24) elements over 2..12 table entries. Non-trivial as in single/tuple.",
+			Gen: typedGen, Prop: typedProp, OutOfEnum: func(TypedCase, bool) bool { return true },
+			RapidQuick: 1500, RapidThorough: 20000,
 		},
 		&pbt.Check[ParCase]{
 			Name: "parallel",
